@@ -49,7 +49,7 @@ func FuzzFormatPreserve(f *testing.F) {
 	for _, s := range []string{
 		"'; c\n a", "#^; c\n(+ % 1)", "(a ; c\n)", "(\n; c\n)", "#!x\n; c\n\n(a)", "(lisp:function ; c\n f)", "'#^0", "#'-", "(-- )",
 		"[a '(b) '[c] ''d]", "1.50 #xFF #o17 1e5 -0.0 \"\"\"r\n\n\"\"\" \"a\\x41\"", "(a ; c\n-1)", ";\n'\n\n0", "(a)\n; c\n\n#'f\n",
-		"(f ''; c\n x)", "((a) ; c\n ; d\n\n\n b)", "(defun f (x)\n;flush\n  ; in\n  x)",
+		"(f ''; c\n x)", "(thread-last xs\n (f)\n (g))\n(thread-last\n xs\n (f))", "((a) ; c\n ; d\n\n\n b)", "(defun f (x)\n;flush\n  ; in\n  x)",
 	} {
 		f.Add([]byte(s), uint8(9), uint8(0))
 		f.Add([]byte(s), uint8(0x29), uint8(7))
